@@ -24,9 +24,18 @@ fn main() {
             let sample: usize = arg(&args, "--sample").and_then(|s| s.parse().ok()).unwrap_or(200);
             let names: Vec<String> = arg(&args, "--names").map(|s| s.split(',').map(|x| x.to_string()).collect()).unwrap_or_default();
             let ser = args.iter().any(|a| a == "--ser");
-            let r = replay::replay(&input, &outdir, nm, seed, sample, names, ser);
+            let fixfile = arg(&args, "--fix");
+            let r = replay::replay(&input, fixfile.as_deref(), &outdir, nm, seed, sample, names, ser);
             println!("{r}");
         }
-        _ => { eprintln!("usage: vh extract|replay ..."); std::process::exit(2); }
+        Some("histories") => {
+            let input = arg(&args, "--in").expect("--in");
+            let output = arg(&args, "--out").expect("--out");
+            let nm: usize = arg(&args, "--models").and_then(|s| s.parse().ok()).unwrap_or(2);
+            let names: Vec<String> = arg(&args, "--names").map(|s| s.split(',').map(|x| x.to_string()).collect()).unwrap_or_default();
+            let ser = args.iter().any(|a| a == "--ser");
+            println!("{}", replay::histories(&input, &output, nm, names, ser));
+        }
+        _ => { eprintln!("usage: vh extract|replay|histories ..."); std::process::exit(2); }
     }
 }
